@@ -29,7 +29,7 @@ def opt_record(o):
     """Options of a run as the Chain.tla option record."""
     sub = o["subtree_update_prob"]
     return {"burnin": int(o["burnin"]), "iters": int(o["num_iters"]), "thin": int(o["thin"]),
-            "tmax": "inf" if o["max_time"] == float("inf") else "zero", "conc": bool(o["concentration_update"]),
+            "tmax": "inf" if o["max_time"] == float("inf") else ("zero" if o["max_time"] <= 0 else "finite"), "conc": bool(o["concentration_update"]),
             "sub": "never" if sub <= 0 else ("always" if sub >= 1 else "maybe"),
             "ndp": int(o["num_samples_data_point"]), "nprg": int(o["num_samples_prune_regraph"])}
 
@@ -102,7 +102,11 @@ def run_one(n, dims, seed, opts, grid=5, want_events=True):
     if oi["iters"] > 0:
         last = 0 if oi["tmax"] == "zero" else oi["iters"] - 1
         want += [i for i in range(0, last + 1) if i % oi["thin"] == 0]
-    if out["iters"] != want:
+    if oi["tmax"] == "finite":
+        full = [0] + [i for i in range(0, oi["iters"]) if i % oi["thin"] == 0]
+        if out["iters"] != full[:len(out["iters"])] or len(out["iters"]) < min(2, len(full)):
+            out["problems"].append(("trace_protocol", "recorded iterations %s are not an initial part of %s" % (out["iters"], full)))
+    elif out["iters"] != want:
         out["problems"].append(("trace_protocol", "recorded iterations %s, expected %s" % (out["iters"], want)))
     out["results"] = res
     return out
@@ -126,7 +130,7 @@ def validate_chain_traces(job, spec_traces, workers=None, timeout=3000):
 
 def model_check_chain(job, clear=True):
     mc = ("---- MODULE MC_Chain ----\nEXTENDS Chain\n"
-          "OptSet == [burnin : {0, 1, 2}, iters : {0, 1, 3, 4}, thin : {1, 2, 3}, tmax : {\"inf\", \"zero\"}, conc : BOOLEAN, "
+          "OptSet == [burnin : {0, 1, 2}, iters : {0, 1, 3, 4}, thin : {1, 2, 3}, tmax : {\"inf\", \"zero\", \"finite\"}, conc : BOOLEAN, "
           "sub : {\"never\", \"maybe\", \"always\"}, ndp : {0, 1, 2}, nprg : {0, 1}]\n====\n")
     cfg = tlc.cfg_text(spec="Spec", constants={"Options": "<- OptSet", "ClearEachIteration": tlc.tla_bool(clear)},
                        invariants=["TraceProtocol", "TraceComplete", "EntriesCurrent", "CacheFresh"],
